@@ -226,6 +226,11 @@ fn fault_kinds_for(point: &TxPoint) -> Vec<FaultKind> {
 
 fn run_and_judge(r: &mut Report, id: &str, sc: &Scenario, idx: usize, schema: &Arc<refcodec::layout::Schema>, label: &str, hashed: bool) -> Trace {
     let tr = run_scenario(sc, schema);
+    if let Ok(pat) = std::env::var("VERIF_DEBUG_LABEL") {
+        if label.contains(&pat) {
+            eprintln!("DEBUG {label}\n{}", serde_json::to_string_pretty(&case_json(sc, &tr)).unwrap_or_default());
+        }
+    }
     if hashed {
         r.case(fnv(format!("{:?}|{:?}|{:?}|{label}", sc.cfg, sc.plan.faults, sc.calls).as_bytes()), true);
     } else {
